@@ -41,6 +41,14 @@ type thread struct {
 	selCases []*selCase
 	spins    int
 	lastPanicSite string
+	hpoints       int // harness-level scheduling points passed (vGo, vYield, vQuiesce)
+}
+
+type switchEv struct {
+	From   int    `json:"from"`
+	H      int    `json:"h"`
+	Reason string `json:"reason"`
+	To     int    `json:"to"`
 }
 
 func (r *run) newThread(parent *thread, lib bool, origin string) *thread {
@@ -101,10 +109,15 @@ func (t *thread) main(body func(fr *frame)) {
 	t.vc.tick(t.id)
 	next := r.pickNext(t)
 	if next == nil {
+		if r.threads[0].state != tDone {
+			r.deadlock()
+		}
 		r.killOnce.Do(func() { close(r.kill) })
 		return
 	}
 	r.cur = next
+	r.schedLog = append(r.schedLog, next.id)
+	r.switches = append(r.switches, switchEv{t.id, t.hpoints, "end", next.id})
 	next.resume <- struct{}{}
 }
 
@@ -162,12 +175,13 @@ func (t *thread) enabled() bool {
 }
 
 // switchTo hands the baton to u and parks t until it is rescheduled.
-func (t *thread) switchTo(u *thread) {
+func (t *thread) switchTo(u *thread, reason string) {
 	if u == t {
 		return
 	}
 	t.r.cur = u
 	t.r.schedLog = append(t.r.schedLog, u.id)
+	t.r.switches = append(t.r.switches, switchEv{t.id, t.hpoints, reason, u.id})
 	u.resume <- struct{}{}
 	t.park()
 }
@@ -197,7 +211,11 @@ func (t *thread) schedPoint(kind string) {
 		return
 	}
 	r.preemptions++
-	t.switchTo(others[c-1])
+	if kind == "go" {
+		t.switchTo(others[c-1], "go")
+	} else {
+		t.switchTo(others[c-1], "lpreempt")
+	}
 }
 
 // yield gives other threads a chance without costing a preemption (Gosched,
@@ -216,7 +234,7 @@ func (t *thread) yield() {
 	}
 	c := r.decide("yield", len(en))
 	if c != 0 {
-		t.switchTo(en[c])
+		t.switchTo(en[c], "yield")
 	}
 }
 
@@ -232,7 +250,7 @@ func (t *thread) block(canRun func() bool, desc string) {
 			r.deadlock()
 		}
 		if next != t {
-			t.switchTo(next)
+			t.switchTo(next, "block")
 		}
 		t.state = tRunnable
 		t.canRun = nil
@@ -292,7 +310,11 @@ func (r *run) spawn(parent *thread, fn value, args []value, lib bool, origin str
 	go t.main(func(fr *frame) {
 		call(r.i, fr, 0, fn, args)
 	})
-	parent.schedPoint("go")
+	if lib {
+		parent.schedPoint("lgo")
+	} else {
+		parent.schedPoint("go")
+	}
 	return t
 }
 
@@ -315,7 +337,7 @@ func (t *thread) quiesceWait() {
 			t.quiesce = false
 			return
 		}
-		t.switchTo(next)
+		t.switchTo(next, "quiesce")
 		t.quiesce = false
 	}
 }
